@@ -520,12 +520,14 @@ func (t *RaftTransaction) ListPage(ctx context.Context, prefix string, after str
 	}
 
 	// We do verifications off of the contents actually in the underlying
-	// storage, not from pre-commit writes. This means we need two entries:
-	//
-	// 1. Things we've seen in the course of this list.
-	// 2. The immediate next list entry, if any.
-	var presentKeys []string
-	var nextPresentEntry string
+	// storage, not from pre-commit writes: the FSM verifies this list by
+	// running listPageInner on its own storage. Count the distinct entries of
+	// the underlying storage this list consumes, so that we can record what
+	// listPageInner yields for them (and for the immediate next entry, if
+	// any) on our snapshot.
+	seenEntries := 0
+	lastSeenEntry := ""
+	hitLimit := false
 
 	// Iterate through the results of list and see if the underlying data
 	// store already had entries for this list operation. Merge in any
@@ -537,15 +539,19 @@ func (t *RaftTransaction) ListPage(ctx context.Context, prefix string, after str
 
 		if limit > 0 && len(keys) >= limit {
 			// We've seen enough entries; exit.
-			nextPresentEntry = entry
+			hitLimit = true
 			break
+		}
+
+		if shouldVisit && (seenEntries == 0 || lastSeenEntry != entry) {
+			seenEntries++
+			lastSeenEntry = entry
 		}
 
 		if _, deleted := deletions[key]; deleted {
 			// This key was deleted; we don't need to include it in our list,
 			// but because it was deleted, it will show up in our underlying
 			// list.
-			presentKeys = append(presentKeys, key)
 			continue
 		}
 
@@ -575,15 +581,11 @@ func (t *RaftTransaction) ListPage(ctx context.Context, prefix string, after str
 
 		if isFolder && len(keys) > 0 && lastKey == entry {
 			// This folder was already seen; don't revisit it.
-			if len(presentKeys) > 0 && presentKeys[len(presentKeys)-1] != key {
-				presentKeys = append(presentKeys, key)
-			}
 			continue
 		}
 
 		// Otherwise, include the entry.
 		keys = append(keys, entry)
-		presentKeys = append(presentKeys, entry)
 		delete(updates, entry)
 	}
 
@@ -611,20 +613,21 @@ func (t *RaftTransaction) ListPage(ctx context.Context, prefix string, after str
 		keys = keys[:limit]
 	}
 
-	// Now that we have the results, create a fake version for verification:
-	// we append the next key (in storage) to the iterated list for iteration,
+	// Now that we have the results, create the version for verification: the
+	// entries of the underlying storage we have consumed plus the next one,
 	// to ensure we didn't miss any entries. This is guaranteed to be at most
 	// one more than the requested entries, if no writes occurred within this
 	// transaction.
-	if nextPresentEntry != "" {
-		presentKeys = append(presentKeys, nextPresentEntry)
-	}
-	verifyLimit := len(presentKeys)
-	if nextPresentEntry == "" {
+	verifyLimit := seenEntries + 1
+	if !hitLimit {
 		// We ran out of entries in storage rather than hitting the limit.
 		// Verifying only the entries we have seen would miss entries that get
 		// added after the last one, so verify the complete remainder instead.
 		verifyLimit = math.MaxInt32
+	}
+	presentKeys, err := listPageInner(ctx, t.tx, prefix, after, verifyLimit)
+	if err != nil {
+		return nil, err
 	}
 	listParams, contentsHash, err := createListVerificationEntry(prefix, after, verifyLimit, presentKeys)
 	if err != nil {
